@@ -94,7 +94,7 @@ Lemma index_complete_obj bs o : obj_ok bs o ->
   /\ (forall k, idx_mem k (oindex o) = true <-> In k (onames o))
   /\ Forall (fun kl => snd kl <> []) (oindex o).
 Proof.
-  intros (_ & _ & _ & Hi & _). rewrite Hi. repeat split.
+  intros (_ & _ & _ & Hi). rewrite Hi. repeat split.
   - intro k. rewrite idx_get_names_map. reflexivity.
   - rewrite idx_mem_names_map. simpl. intro H. apply existsb_exists in H. destruct H as (x & Hx & E). apply okey_eqb_eq in E. subst. exact Hx.
   - intro H. rewrite idx_mem_names_map. simpl. apply existsb_exists. exists k. split; [exact H | apply okey_eqb_refl].
@@ -103,14 +103,14 @@ Qed.
 
 (* ... after any history, for every database of the pool: index[k] lists exactly the rows named k, increasing; an entry
    exists iff some row carries the name; no entry is empty *)
-Theorem index_complete ops : ops_dom init ops -> forall h d, handle_db (run init ops) h = Some d ->
+Theorem index_complete ops : forall h d, handle_db (run init ops) h = Some d ->
   (forall k, idx_get k (dindex d) = positions k (dnames d) 0)
   /\ (forall k p, In p (positions k (dnames d) 0) <-> exists i, nth_error (dnames d) i = Some k /\ p = Z.of_nat i)
   /\ (forall k, ssorted (positions k (dnames d) 0))
   /\ (forall k, idx_mem k (dindex d) = true <-> In k (dnames d))
   /\ Forall (fun kl => snd kl <> []) (dindex d).
 Proof.
-  intros Hd h d Hh. pose proof (run_ok ops init init_ok Hd) as Hs.
+  intros h d Hh. pose proof (run_ok ops init init_ok) as Hs.
   unfold handle_db in Hh. destruct (lookup (run init ops) h) as [[oid o]|] eqn:El; [|discriminate]. inv Hh.
   destruct (index_complete_obj _ _ (Hs _ _ (lookup_nth _ _ _ _ El))) as (H1 & H2 & H3). cbn [view dindex dnames].
   split; [exact H1|]. split.
@@ -119,10 +119,10 @@ Proof.
 Qed.
 
 (* C05 props_aligned / names aligned, after any history *)
-Theorem props_aligned ops : ops_dom init ops -> forall h d, handle_db (run init ops) h = Some d ->
+Theorem props_aligned ops : forall h d, handle_db (run init ops) h = Some d ->
   length (dnames d) = fp_num d /\ forall k v, aget k (dprops d) = Some v -> length v = fp_num d.
 Proof.
-  intros Hd h d Hh. pose proof (run_ok ops init init_ok Hd) as Hs.
+  intros h d Hh. pose proof (run_ok ops init init_ok) as Hs.
   unfold handle_db in Hh. destruct (lookup (run init ops) h) as [[oid o]|] eqn:El; [|discriminate]. inv Hh.
   destruct (Hs _ _ (lookup_nth _ _ _ _ El)) as (_ & Hf & Hn & _). split; [exact Hn|].
   intros k v Hk. rewrite <- Hn. cbn [view dprops] in Hk. eapply props_fit_len; eassumption.
@@ -151,7 +151,7 @@ Theorem getitem_name_spec s h oid o nm :
         else Raises EKey).
 Proof.
   intros Hs Hl. cbv zeta. pose proof (lookup_nth _ _ _ _ Hl) as Ho.
-  destruct (Hs _ _ Ho) as (_ & _ & _ & Hi & _).
+  destruct (Hs _ _ Ho) as (_ & _ & _ & Hi).
   cbn [step]. rewrite Hl. unfold h_getname.
   assert (Hm : idx_mem (Some nm) (oindex o) = existsb (okey_eqb (Some nm)) (dnames (view (bufs s) o))).
   { rewrite Hi, idx_mem_names_map. reflexivity. }
@@ -177,13 +177,13 @@ Theorem as_type_casts s oid o k cp s' hn :
   handle_db s' hn = Some (if kind_eqb k (okind o) && negb cp then view (bufs s) o else astype_db k (view (bufs s) o)).
 Proof.
   intros Hs Ho H. unfold h_astype in H.
-  destruct (Hs _ _ Ho) as ((Hr1 & Hr2) & Hf & Hn & Hi & He).
+  destruct (Hs _ _ Ho) as ((Hr1 & Hr2) & Hf & Hn & Hi).
   destruct (kind_eqb k (okind o) && negb cp) eqn:Ealias.
   - inv H. unfold handle_db, lookup, new_handle. cbn [pool objs bufs]. rewrite nth_error_app2, Nat.sub_diag by lia. simpl. rewrite Ho. reflexivity.
   - destruct (oarr o) as [c|] eqn:Ea; [|inv H].
     destruct (csr_astype (bufs s) c (okind o) k) as [bs1 c1] eqn:Ec.
     destruct (csr_astype_spec _ _ _ _ _ _ Ec Hr1) as (e & -> & Hc1 & Hp & Hii & Hb & Hq).
-    unfold new_db_shared in H. destruct (negb (props_fit _ _ _)); [inv H|]. inv H.
+    unfold new_db_shared in H. destruct (negb (_ && props_fit _ _ _)); [inv H|]. inv H.
     unfold handle_db, new_handle. rewrite lookup_pushed. f_equal. unfold push_obj. cbn [bufs].
     unfold view, astype_db. cbn [okind olevel oarr onames oindex oprops dlevel dbits drows dnames dindex dprops dkind option_map].
     rewrite Ea. cbn [option_map]. rewrite Hb. f_equal.
@@ -289,7 +289,7 @@ Theorem subset_spec s h oid o names s' hn :
     /\ dnames d' = map snd pairs
     /\ dprops d' = map (take_col (map fst pairs)) (dprops d).
 Proof.
-  intros Hs Hl H d pairs. pose proof (lookup_nth _ _ _ _ Hl) as Ho. destruct (Hs _ _ Ho) as (_ & _ & _ & Hi & _).
+  intros Hs Hl H d pairs. pose proof (lookup_nth _ _ _ _ Hl) as Ho. destruct (Hs _ _ Ho) as (_ & _ & _ & Hi).
   cbn [step] in H. rewrite Hl in H. unfold h_subset in H.
   destruct (existsb _ names) eqn:Ex; [inv H|]. apply existsb_negb_false in Ex.
   pose proof (subset_pairs_present names (oindex o) Ex) as Hp1. pose proof (subset_pairs_spec names (oindex o) Ex) as Hp2.
@@ -304,4 +304,46 @@ Proof.
   eexists. split; [unfold handle_db, new_handle; rewrite lookup_pushed; reflexivity|].
   unfold push_obj. cbn [bufs]. unfold view at 1 2 3. cbn [drows dnames dprops oarr onames oprops].
   rewrite view_rows_alloc, Hv, map_map. rewrite Hprs. auto.
+Qed.
+
+(* ---- pickle / deepcopy / savez+load / save+load: a new database with the contents of the source *)
+Lemma h_pickle_view s oid o s' hn :
+  state_ok s -> nth_error (objs s) oid = Some o -> h_pickle s o = (s', Ok (ONew hn)) ->
+  handle_db s' hn = Some (view (bufs s) o).
+Proof.
+  intros Hs Ho H. destruct (Hs _ _ Ho) as (_ & _ & _ & Hi). unfold h_pickle in H.
+  destruct (dbits (view (bufs s) o)) as [b|] eqn:Eb.
+  - unfold alloc_csr in H.
+    match type of H with context [alloc_cols ?bb ?cs] =>
+      destruct (alloc_cols_app cs bb) as [e He];
+      destruct (alloc_cols_view cs bb (fst (alloc_cols bb cs)) (snd (alloc_cols bb cs)) []) as [Hv _]; [destruct (alloc_cols bb cs); reflexivity|];
+      destruct (alloc_cols bb cs) as [bs2 ps] eqn:Ea end.
+    simpl in He, Hv. rewrite app_nil_r in Hv. inv H.
+    unfold handle_db, new_handle. rewrite lookup_pushed. f_equal. unfold push_obj. cbn [bufs].
+    unfold view at 1. cbn [okind olevel oarr onames oindex oprops option_map cbits].
+    rewrite view_rows_alloc, Hv, <- Hi, <- Eb. reflexivity.
+  - match type of H with context [alloc_cols ?bb ?cs] =>
+      destruct (alloc_cols_view cs bb (fst (alloc_cols bb cs)) (snd (alloc_cols bb cs)) []) as [Hv _]; [destruct (alloc_cols bb cs); reflexivity|];
+      destruct (alloc_cols bb cs) as [bs2 ps] eqn:Ea end.
+    simpl in Hv. rewrite app_nil_r in Hv. inv H.
+    unfold handle_db, new_handle. rewrite lookup_pushed. f_equal. unfold push_obj. cbn [bufs].
+    unfold view at 1. cbn [okind olevel oarr onames oindex oprops option_map].
+    rewrite Hv, <- Hi. unfold view in Eb. cbn [dbits] in Eb. unfold view. destruct (oarr o); [discriminate|]. reflexivity.
+Qed.
+
+(* C05 reload_id: what is read back from a .fpz (savez/load) or .fps (save/load) file, or from a pickle, denotes the same
+   abstract database - rows, names incl. None, name index, property columns, type, level, bits *)
+Theorem reload_id s h oid o fpz s' hn :
+  state_ok s -> lookup s h = Some (oid, o) -> step s (OpReload h fpz) = (s', Ok (ONew hn)) ->
+  handle_db s' hn = Some (view (bufs s) o).
+Proof.
+  intros Hs Hl H. cbn [step] in H. rewrite Hl in H. destruct (fpz && _); [inv H|].
+  eapply h_pickle_view; eauto using lookup_nth.
+Qed.
+
+Theorem pickle_id s h oid o s' hn :
+  state_ok s -> lookup s h = Some (oid, o) -> step s (OpPickle h) = (s', Ok (ONew hn)) ->
+  handle_db s' hn = Some (view (bufs s) o).
+Proof.
+  intros Hs Hl H. cbn [step] in H. rewrite Hl in H. eapply h_pickle_view; eauto using lookup_nth.
 Qed.
